@@ -41,7 +41,6 @@ type prep struct {
 }
 
 const maxInstPerQuant = 600
-const maxRounds = 4
 
 func splitConj(t *Term, out *[]*Term) {
 	if t.Op == "and" {
@@ -267,12 +266,14 @@ func (w *World) Prepare(o *Obligation, lemmaMax int) ([]*Term, *prep) {
 	unfolded := map[*Term]bool{}
 	lemDone := map[string]bool{}
 	fromUnfold := map[*Term]int{} // apps introduced by unfolding -> depth
-	var result, resultBase []*Term
+	maxGen := 1
+	if hints.InstDepth > 0 {
+		maxGen = hints.InstDepth
+	}
+	cands := map[string]map[*Term]bool{}
+	collectCands(base, cands)
+	addHintCands(cands, hints.Insts)
 	runInst := func() ([]*Term, []*Term) {
-		cands := map[string]map[*Term]bool{}
-		collectCands(resultBase, cands)
-		collectCands(base, cands)
-		addHintCands(cands, hints.Insts)
 		var nb, nd []*Term
 		for _, f := range base {
 			splitConj(p.inst(f, true, cands), &nb)
@@ -282,9 +283,7 @@ func (w *World) Prepare(o *Obligation, lemmaMax int) ([]*Term, *prep) {
 		}
 		return nb, nd
 	}
-	for round := 0; round < maxRounds; round++ {
-		nb, nd := runInst()
-		next := append(append([]*Term(nil), nb...), nd...)
+	derive := func(next []*Term) bool {
 		// unfold / triggers on the apps present now
 		apps := map[*Term]bool{}
 		collectApps(next, apps)
@@ -339,24 +338,26 @@ func (w *World) Prepare(o *Obligation, lemmaMax int) ([]*Term, *prep) {
 				}
 			}
 		}
-		same := len(next) == len(result)
-		if same {
-			for i := range next {
-				if next[i] != result[i] {
-					same = false
-					break
-				}
-			}
-		}
-		result, resultBase = next, nb
-		if same && !grew {
-			break
-		}
+		return grew
 	}
-	// final pass to include the last derived facts
-	{
+	var result []*Term
+	for gen := 0; ; gen++ {
 		nb, nd := runInst()
 		result = append(append([]*Term(nil), nb...), nd...)
+		// derived facts to a fixpoint bounded by fuel (unfolding apps inside unfold equations)
+		for k := 0; k < fuel+1; k++ {
+			all := append(append([]*Term(nil), result...), derived...)
+			if !derive(all) {
+				break
+			}
+		}
+		if gen >= maxGen {
+			_, nd = runInst()
+			result = append(append([]*Term(nil), nb...), nd...)
+			break
+		}
+		// next generation of candidates: marked terms of instances of base formulas
+		collectCands(nb, cands)
 	}
 	// dedupe
 	seen := map[*Term]bool{}
